@@ -57,6 +57,12 @@ class C19(Check):
             for flag in (0, 1):
                 for raw in ("caf\u00e9".encode("utf-8"), b"caf\x82", b"plain", "\u2603/\u00fc".encode("utf-8"), b"\x80", b"\xe2\x82"):
                     cases.append(("text %d %s" % (flag | (other << 1), hexs(raw)), {"flag": flag}))
+        # name and entry comment of different kinds (ASCII name + high-byte comment and the reverse): each is decoded by the
+        # flag, not by what the other looks like
+        for flag in (0, 1):
+            for nm_, cm_ in ((b"plain.txt", b"caf\x82 \xe6m"), (b"plain.txt", bytes(range(0x80, 0x100))), (b"caf\x82", b"ascii comment"),
+                             (b"a", "\u00fc\u2603".encode("utf-8")), ("\u00fc".encode("utf-8"), b"x"), (b"n", b"\xff\xfe"), (b"", b"\x80")):
+                cases.append(("text %d %s %s" % (flag, hexs(nm_), hexs(cm_)), {"flag": flag, "cm": cm_.hex()}))
         n = 6000 if self.tier == "quick" else 200000
         for i in range(n):
             ln = r.choice([1, 2, 3, 4, 5, 8, 16, 40, 200]) if i % 400 else r.choice([4096, 65535])
@@ -141,9 +147,14 @@ class C19(Check):
             return None
         if parts[0] == "text":
             flag, raw = int(parts[1]) & 1, bytes.fromhex(parts[2][1:])
-            m = re.match(r"\[x([0-9a-f]*) x([0-9a-f]*)\]", out)
+            m = re.match(r"\[x([0-9a-f]*) x([0-9a-f]*)(?: x([0-9a-f]*))?\]", out)
             if not m:
                 return "unexpected output"
+            if meta.get("cm") is not None:
+                cmr = bytes.fromhex(meta["cm"])
+                wantc = cmr.decode("utf-8", "replace") if flag else cmr.decode("cp437")
+                if m.group(3) is None or bytes.fromhex(m.group(3)) != wantc.encode("utf-8"):
+                    return "entry comment differs from the %s decoding" % ("UTF-8 (lossy)" if flag else "CP437")
             want = raw.decode("utf-8", "replace") if flag else raw.decode("cp437")
             if bytes.fromhex(m.group(1)) != want.encode("utf-8"):
                 return "decoded text differs from the %s decoding" % ("UTF-8 (lossy)" if flag else "CP437")
